@@ -47,6 +47,39 @@ func genFMA(t *rapid.T, specials bool) C03Case {
 	inRange := func(v model.Val) bool {
 		return v.Form != model.Finite || v.Exp <= model.MaxExp && v.Exp >= model.MinExp
 	}
+	if h.Rare(t, "tinyproduct", 25) {
+		// u carries a rounding pattern at the receiver's precision (a power of ten, a tie, all nines ...) and the
+		// product of two long operands (1..45 words each) lies entirely below u's last digit, by 0..60 digits or far:
+		// it only decides direction and accuracy - and, when it has the opposite sign, turns a power of ten into
+		// 0.99..9 at every precision, word-aligned or not
+		p := rapid.IntRange(1, 120).Draw(t, "tp.p")
+		if rapid.Bool().Draw(t, "tp.edge") {
+			p = 19*rapid.IntRange(1, 6).Draw(t, "tp.pw") + rapid.IntRange(-1, 1).Draw(t, "tp.poff")
+		}
+		ud := h.GenRoundDigits(t, "tp.u", p)
+		if rapid.IntRange(0, 2).Draw(t, "tp.pow10") == 0 {
+			ud = "1"
+		}
+		ue := int64(rapid.IntRange(-40, 40).Draw(t, "tp.ue"))
+		uv := model.MkFinite(rapid.Bool().Draw(t, "tp.uneg"), ud, ue)
+		wx, wy := rapid.IntRange(1, 45).Draw(t, "tp.wx"), rapid.IntRange(1, 45).Draw(t, "tp.wy")
+		if rapid.Bool().Draw(t, "tp.long") {
+			wx, wy = rapid.IntRange(28, 45).Draw(t, "tp.wx2"), rapid.IntRange(28, 45).Draw(t, "tp.wy2")
+		}
+		xd, yd := h.GenDigitsN(t, "tp.x", 19*wx-rapid.IntRange(0, 18).Draw(t, "tp.xo")), h.GenDigitsN(t, "tp.y", 19*wy-rapid.IntRange(0, 18).Draw(t, "tp.yo"))
+		gap := int64(rapid.IntRange(0, 60).Draw(t, "tp.gap"))
+		if rapid.IntRange(0, 5).Draw(t, "tp.fargap") == 0 {
+			gap = int64(rapid.IntRange(60, 5000).Draw(t, "tp.gap2"))
+		}
+		// |x*y| < 10^(xe+ye): put that at or below u's last digit (or the receiver's, whichever is lower)
+		low := ue - int64(max(len(ud), p))
+		xe := int64(rapid.IntRange(-30, 30).Draw(t, "tp.xe"))
+		xv := model.MkFinite(rapid.Bool().Draw(t, "tp.xneg"), xd, xe)
+		yv := model.MkFinite(rapid.Bool().Draw(t, "tp.yneg"), yd, low-gap-xe)
+		c.X, c.Y, c.U = mk(xv, "tp.x"), mk(yv, "tp.y"), mk(uv, "tp.u")
+		c.P = uint(p)
+		return c
+	}
 	if rapid.IntRange(0, 7).Draw(t, "boundary") == 0 {
 		// a product with few significant digits (often an exact power of ten) and an addend placed around the
 		// receiver's last digit position, mostly of the opposite sign: the sum then crosses a decade downwards and the
@@ -534,7 +567,7 @@ func TestC03Replay(t *testing.T) { propC03.Replay(t) }
 // lowest digits together with u. Expected results by construction.
 func TestC03Grid(t *testing.T) {
 	defer h.WriteStats("C03")
-	ns := []int{140000}
+	ns := []int{140000, 1100000} // (the second: operands more than 2^20 digits apart)
 	if h.Thorough() {
 		ns = append(ns, 300000)
 	}
@@ -599,7 +632,65 @@ func TestC03Grid(t *testing.T) {
 		}
 	}
 	h.AddExtra("C03", "giant_sparse_products", cnt)
+	h.AddExtra("C03", "long_tail_addends", c03LongTailAddend(t))
 	h.AddExtra("C03", "products_beyond_maxprec_digits", c03ProductBeyondMaxPrec(t))
+}
+
+// c03LongTailAddend: the product is longer than the receiver's precision and u meets its last digits (so that it
+// carries or borrows through them) while u's own mantissa runs on for more than 2^20 digits below (one stray digit at
+// the far end). An addition that reduces "an operand reaching that far down" to a sticky digit must not drop the part
+// of u that overlaps the product. Oracle: the far digit only has to lie below everything else, so the reference
+// result is the model's for the same operands with the stray digit 300 places down instead of 2^20.
+func c03LongTailAddend(t *testing.T) int {
+	const far, near = 1<<20 + 2000, 300
+	n := 0
+	type shape struct {
+		x, y, head string // digits of x (0.x), y, and of u's head, aligned at 10^-57
+		uneg       bool
+		about      string
+	}
+	shapes := []shape{
+		{strings.Repeat("3", 57), "3", "1", false, "0.(57 nines) + 10^-57 + tiny = 1 + tiny"},
+		{"1" + strings.Repeat("0", 55) + "1", "1", "1", true, "0.1(55 zeros)1 - 10^-57 - tiny = 0.1 - tiny"},
+		{strings.Repeat("9", 57), "1", "2", false, "0.(57 nines) + 2*10^-57 + tiny"},
+	}
+	for _, sh := range shapes {
+		for _, neg := range []bool{false, true} {
+			mk := func(tail int) (x, y, u h.Spec) {
+				x = h.Spec{F: "f", D: sh.x, E: 0, P: 57, Neg: neg}
+				y = h.Spec{F: "f", D: sh.y, E: 1, P: 19}
+				ud := sh.head + strings.Repeat("0", tail) + "1"
+				u = h.Spec{F: "f", D: ud, E: -56, P: uint(len(ud)), Neg: sh.uneg != neg}
+				return
+			}
+			xs, ys, us := mk(far)
+			_, _, un := mk(near)
+			x, y, u := xs.Build(), ys.Build(), us.Build()
+			for _, p := range []uint{1, 19, 30, 56, 57, 58, 76} {
+				for md := model.Mode(0); md < 6; md++ {
+					want := model.Fma(xs.Val(), ys.Val(), un.Val(), uint64(p), md)
+					z := mkRecv(p, uint8(md))
+					z.FMA(x, y, u)
+					got := h.Read(z)
+					o := &h.Obs{}
+					o.Label("long-tail-addend")
+					o.NonTrivial()
+					enc := mustJSON(struct {
+						Shape string
+						Neg   bool
+						P     uint
+						M     model.Mode
+					}{sh.about, neg, p, md})
+					if got.Malformed != "" || !got.Val().Equal(want.V) || model.Acc(got.Acc) != want.Acc {
+						h.ReportGridFail(t, "C03", h.Failf("long-tail", "%s (tiny = 10^-%d, negated: %v) at precision %d %v: got %v (%v), want %v (%v)", sh.about, 57+far, neg, p, md, got.Val(), model.Acc(got.Acc), want.V, want.Acc), enc)
+					}
+					h.RecordGrid("C03", o, json.RawMessage(enc))
+					n++
+				}
+			}
+		}
+	}
+	return n
 }
 
 // c03ProductBeyondMaxPrec: operands of up to MaxPrec digits are valid, so the exact product can have more digit
